@@ -240,12 +240,69 @@ def closed_template(rng):
             if not any(m['frm'] == cand['frm'] for m in maps):
                 maps.append(cand)
                 break
+    return _close(rng, maps, syms)
+
+
+def singles_template(rng):
+    """rollover of single-key mappings: 3-4 mappings, most of them on one key each, whose outputs share a modifier or a key
+    ([MOD,k], [k], [MOD], []), mixed repeat modes; event keys restricted to the triggers and one or two output keys"""
+    mods_pool = rng.sample(['LEFTSHIFT', 'RIGHTSHIFT', 'LEFTCTRL', 'RIGHTCTRL', 'LEFTALT', 'RIGHTALT', 'LEFTMETA', 'RIGHTMETA'], 2)
+    syms = ['$a%d' % i for i in range(8)]
+    nmaps = rng.choice([3, 3, 4])
+    trig = syms[:4]
+    outk = syms[4:7]
+    maps = []
+    nsp = 0
+    for i in range(nmaps):
+        for _try in range(50):
+            r = rng.random()
+            if r < 0.8:
+                frm = [trig[i]]
+            elif r < 0.9:
+                frm = [rng.choice(mods_pool), trig[i]]
+            else:
+                j = rng.choice([x for x in range(4) if x != i])
+                frm = [trig[j], trig[i]]
+            sh = rng.random()
+            k = rng.choice(outk + [rng.choice(trig)])
+            if sh < 0.4:
+                to = [mods_pool[0] if rng.random() < 0.75 else mods_pool[1], k]
+            elif sh < 0.75:
+                to = [k]
+            elif sh < 0.85:
+                to = [rng.choice(mods_pool)]
+            elif sh < 0.92:
+                to = [rng.choice(outk), k] if k not in outk[:1] else [k]
+            else:
+                to = []
+            if len(set(to)) != len(to):
+                continue
+            r = rng.random()
+            if r < 0.6:
+                rep = NORMAL
+            elif r < 0.85:
+                rep = DISABLED
+            else:
+                rep = ('Special', K(*rng.sample(outk + mods_pool, rng.choice([1, 1, 2]))), Opaque('delay%d' % nsp), Opaque('interval%d' % nsp))
+                nsp += 1
+            absb = [c for c in frm[:-1] if rng.random() < 0.25]
+            cand = dict(frm=K(*frm), to=K(*to), rep=rep, absb=K(*absb))
+            if not any(m['frm'] == cand['frm'] for m in maps):
+                maps.append(cand)
+                break
+    return _close(rng, maps, syms, extra_out=True)
+
+
+def _close(rng, maps, syms, extra_out=False):
     alpha = []
     for m in maps:
         for k in m['frm']:
             if k not in alpha:
                 alpha.append(k)
     outs = [k for m in maps for k in m['to'] if k not in alpha]
+    if extra_out and outs and len(alpha) < 5:
+        alpha.append(rng.choice(outs))
+        outs = [k for k in outs if k not in alpha]
     if outs and rng.random() < 0.5 and len(alpha) < 6:
         alpha.append(rng.choice(outs))
     for k in outs + syms:                                   # at least four event keys, otherwise N=4 is never reached
@@ -366,6 +423,11 @@ def build(repo, native, tier, seed, log=None):
         maps, alpha = closed_template(crng)
         add_spec('template/C4-%d-%d' % (seed, i), maps, 4, max(D, 20), alphabet=alpha,
                  note='random symbolic template, four keys held, event keys restricted to the listed keys', no_foreign=True)
+    nsingles = int(os.environ.get('VERIF_NSINGLES', '0')) or (24 if quick else 120)
+    for i in range(nsingles):
+        maps, alpha = singles_template(crng)
+        add_spec('template/S4-%d-%d' % (seed, i), maps, 4, max(D, 20), alphabet=alpha,
+                 note='random symbolic template of single-key mappings sharing outputs, four keys held, event keys restricted to the listed keys', no_foreign=True)
     big = []
     for name, maps in builtin_layouts(native).items():
         big.append(('builtin/' + name, maps))
